@@ -528,12 +528,76 @@ def _or_terms(v):
     return [v]
 
 
+def _edge_updates(node):
+    """(statement, name of the index X) for every  G[X].add(..) / G[X].update(..)
+    / G[X] |= ..  below *node*"""
+    out = []
+    for c in ast.walk(node):
+        tgt = None
+        if isinstance(c, ast.Call) and isinstance(c.func, ast.Attribute) and \
+                c.func.attr in ("add", "update") and isinstance(
+                c.func.value, ast.Subscript):
+            tgt = c.func.value
+        elif isinstance(c, ast.AugAssign) and isinstance(c.op, ast.BitOr) and \
+                isinstance(c.target, ast.Subscript):
+            tgt = c.target
+        if tgt is not None and isinstance(tgt.slice, ast.Name):
+            out.append((c, tgt.slice.id, ast.unparse(tgt.value)))
+    return out
+
+
+def _single_sweep_closure(ctx, m, fn):
+    """no `while` loop at all: the closure is computed by plain for-nests.  That
+    is right only in Warshall's arrangement (the *intermediate* statement is the
+    outermost loop); with the updated statement outermost, one sweep closes the
+    relation only for inputs listed dependencies-first."""
+    nests = []
+    for st in fn.body:
+        if isinstance(st, ast.For) and isinstance(st.target, ast.Name):
+            ups = _edge_updates(st)
+            removes = any(isinstance(c, ast.Call) and isinstance(
+                c.func, ast.Attribute) and c.func.attr in ("remove", "discard")
+                for c in ast.walk(st))
+            builds = any(isinstance(c, ast.Attribute) and c.attr == "depends_on"
+                         for c in ast.walk(st))
+            if ups and not removes and not builds:
+                nests.append((st, ups))
+    if not nests:
+        raise AnalysisError("get_dot_dependency_graph: neither a fixed-point loop "
+                            "nor a closure sweep was found")
+    for st, ups in nests:
+        outer = st.target.id
+        for c, idx, graph in ups:
+            if idx == outer:
+                ctx.ob("P/closure/fixed-point", False, m.loc(c),
+                       f"the dependency relation is closed in a single sweep with "
+                       f"the updated statement ({outer}) as the outermost loop and "
+                       "no iteration to a fixed point: dependencies of a "
+                       "statement that is visited later are not propagated, so "
+                       "for statements listed dependents-first the closure is "
+                       "incomplete and redundant edges are drawn")
+            else:
+                # Warshall: outer loop variable must be the intermediate whose
+                # dependencies are copied
+                src = ast.unparse(c)
+                ok = f"{graph}[{outer}]" in src or f"{graph}.get({outer}" in src
+                if not ok:
+                    raise AnalysisError("get_dot_dependency_graph: closure sweep "
+                                        "not recognised")
+                ctx.ob("P/closure/fixed-point", True, m.loc(c),
+                       "single sweep with the intermediate statement outermost "
+                       "(Warshall)")
+
+
 def _check_closure_loop(ctx, model):
     UT = "pymbolic.imperative.utils"
     m, fn = model.func(f"{UT}:get_dot_dependency_graph")
     loc = m.loc(fn)
     loops = [w for w in ast.walk(fn) if isinstance(w, ast.While)
              and isinstance(w.test, ast.Constant) and w.test.value is True]
+    if not loops:
+        _single_sweep_closure(ctx, m, fn)
+        return
     if len(loops) != 1:
         raise AnalysisError("get_dot_dependency_graph: fixed-point loop not found")
     w = loops[0]
